@@ -172,7 +172,7 @@ func c02Run(c *ev.Ctx, k c02Case) {
 
 func checkC02(c *ev.Ctx) {
 	defer cleanupScratch()
-	c.Rule("real gensign.Run + regular.Handler, honest agent, recording CA; the signing request received by the CA is compared with a reference record built from server-side inputs: strings {plain, JSON metacharacters, <>&, non-ASCII, 200 chars, empty} for login/user/host/IP/transaction id varied one field at a time and jointly x CA algorithm{0,1,2,3,4,99}; handler configurations: validity{1,3600,43200,315360000,2^32+43200} x every non-colliding subset (size<=3; thorough <=4) of key_identifiers keys {rsa,RSA,Ecdsa,ed25519,default,unknown,1,3,99} x algorithm; two consecutive requests per case. non-trivial = request signed and compared; distinct by case")
+	c.Rule("real gensign.Run + regular.Handler, honest agent, recording CA; the signing request received by the CA is compared with a reference record built from server-side inputs: strings {plain, JSON metacharacters, <>&, non-ASCII, 200 chars, empty, literal JSON/HTML escape texts (\\u0026, \\\\u003c, &lt;, \\n), U+2028/2029, control characters} for login/user/host/IP/transaction id varied one field at a time and jointly x CA algorithm{0,1,2,3,4,99}; handler configurations: validity{1,3600,43200,315360000,2^32+43200} x every non-colliding subset (size<=3; thorough <=4) of key_identifiers keys {rsa,RSA,Ecdsa,ed25519,default,unknown,1,3,99} x algorithm; two consecutive requests per case. non-trivial = request signed and compared; distinct by case")
 	c.Assume("key_identifiers names are normalised case-insensitively or numerically (reference table in the harness)")
 	if c.ReplayCase != nil {
 		var k c02Case
@@ -181,7 +181,9 @@ func checkC02(c *ev.Ctx) {
 		return
 	}
 	allIDs := map[string]string{"default": "slot-default", "rsa": "slot-rsa", "dsa": "slot-dsa", "ecdsa": "slot-ecdsa", "ed25519": "slot-ed", "99": "slot-99"}
-	strs := []string{"plain", "j\"s{o}n[,]:\\", "a<>&b", "ünï-日本", strings.Repeat("x", 200), ""}
+	strs := []string{"plain", "j\"s{o}n[,]:\\", "a<>&b", "ünï-日本", strings.Repeat("x", 200), "",
+		// every escape form a JSON encoder can emit, as literal text in the value, and the characters those forms stand for
+		`a\u0026b\u003c\u003e`, `\\u0026\\\u003c`, `&lt;&gt;&amp;&#34;`, `\n\"\\\/\ud83d`, "\u2028\u2029\ufffd", "\x00\x01\x1f\n\r\t\x7f"}
 	base := c02Case{LogName: "alice", ReqUser: "alice", ReqHost: "client.host", ClientIP: "1.2.3.4", TransID: "0a1b2c3d4e", Validity: 43200, KeyIDs: allIDs}
 	n := 0
 	for _, algo := range []int{0, 1, 2, 3, 4, 99, 7} {
@@ -191,8 +193,8 @@ func checkC02(c *ev.Ctx) {
 				k.Algo = algo
 				switch fi {
 				case 0:
-					if s == "" {
-						continue
+					if s == "" || strings.ContainsAny(s, "/\x00") {
+						continue // a login name is a file name in the key directory: such a user cannot be authenticated
 					}
 					k.LogName = s
 				case 1:
@@ -205,7 +207,7 @@ func checkC02(c *ev.Ctx) {
 					k.TransID = s
 				case 5:
 					k.ReqUser, k.ReqHost, k.ClientIP, k.TransID = s, s+"h", s+"i", s+"t"
-					if s != "" {
+					if s != "" && !strings.ContainsAny(s, "/\x00") {
 						k.LogName = s
 					}
 				}
